@@ -21,8 +21,8 @@ def zoo_expr(rng):
 
 def swarm_c12(rng, tier):
     fault_free = rng.chance(0.2)
-    kinds = ["scribble", "wipe", "alias", "abort", "preempt"]
-    enabled = [] if fault_free else [k for k in kinds if rng.chance(0.6)]
+    kinds = ["scribble", "wipe", "alias", "abort", "preempt", "abort_sweep"]
+    enabled = [] if fault_free else [k for k in kinds if rng.chance(0.6 if k != "abort_sweep" else (0.15 if tier == "quick" else 0.4))]
     if not fault_free and not enabled:
         enabled = [rng.choice(kinds)]
     cfg = {
@@ -149,6 +149,19 @@ def gen_fault(w, rng, cfg):
         if exc == "RecursionError":
             op["headroom"] = rng.randint(5, 40)
         return op
+    if k == "abort_sweep":
+        # crash-point enumeration on a SMALL call: every line (thorough) or every 5th..9th line (quick)
+        cands = []
+        for name in API_OPS:
+            for s in w.live(API_INPUT_KIND[name]):
+                if s.meta.get("w", 0) <= (40 if w.tier == "quick" else 160):
+                    cands.append((name, s.id))
+        if not cands:
+            return None
+        name, sid = rng.choice(cands)
+        stride = rng.choice([5, 7, 9]) if w.tier == "quick" else rng.choice([1, 1, 2, 3])
+        return {"op": "abort_sweep", "call": {"op": name, "in": [sid]}, "stride": stride, "offset": rng.randint(1, stride),
+                "exc": rng.choice(["SimAbort", "KeyboardInterrupt", "MemoryError"])}
     if k == "preempt":
         n = cfg["threads"]
         calls = []
